@@ -231,6 +231,12 @@ def match_fields(base, cur, al):
                         continue
                     scores[(a, b)] = 0.7 + (0.3 if bnames.index(a) == cnames.index(b) else 0.0)
             got = _best_unique(scores, 0.7, margin=0.01)
+            # what is left over after the type-directed pass: a field that was renamed AND retyped (`name: String` -> `class_name: &str`) keeps its position
+            rest_o = [x for x in van if x not in got]
+            rest_n = [x for x in fresh if x not in got.values()]
+            if rest_o and len(rest_o) == len(rest_n) and [bnames.index(x) for x in rest_o] == [cnames.index(x) for x in rest_n]:
+                for a, b in zip(rest_o, rest_n):
+                    got[a] = b
             # all-or-nothing per variant would be too strict: keep what is unambiguous
             for a, b in got.items():
                 al.field[(o, b)] = a
